@@ -86,8 +86,10 @@ pub fn launch_target_actor(
 ) -> Result<(JoinHandle<()>, TargetActorHandleSet)> {
     let (termination_sender, termination_events) = channel::bounded(1);
     let (target_invalidated_sender, target_invalidated_events) = channel::bounded(1);
-    let (target_actor_input_sender, target_actor_input_receiver) =
-        channel::bounded(crate::DEFAULT_CHANNEL_CAP);
+    // The inbox is unbounded so that the relay loop never blocks while forwarding a message:
+    // a bounded inbox lets a target blocked on the (bounded) output channel and the relay
+    // blocked on that target's full inbox wait for each other forever.
+    let (target_actor_input_sender, target_actor_input_receiver) = channel::unbounded();
 
     let watcher = match watch_option {
         WatchOption::Enabled => {
